@@ -330,3 +330,53 @@ Definition manager_align (mc : list species)
   | Ok calls => run_calls calls result
   | Err e => ([], Err e)
   end.
+
+(* ------------------------------------------------------------------ histories *)
+(* Several alignments made with ONE restraint list object (rigid pre-alignment then the full one; a
+   parsed dictionary reused).  align_molecules never writes into the list it receives (the role swap
+   builds a new list), so every call sees the list the caller built and the caller's list is the same
+   afterwards.  One entry per call: (deformation types, ignore_hydrogens, auto_guess); the result pairs
+   the outcome of the call with the caller's list after it. *)
+Definition align_history {P} (start end_ : molecule P) (restr : list (Z * Z))
+  (calls : list (option (list Z) * bool * bool)) : list (res (outcome P) * list (Z * Z)) :=
+  map (fun o : option (list Z) * bool * bool =>
+         (align_args start end_ (Some restr) (fst (fst o)) (snd (fst o)) (snd o), restr)) calls.
+
+(* ------------------------------------------------------------------ Manager, parse_restrictions=False *)
+(* the restrictions dictionary is used as given (already parsed: name -> None | list of pairs), in ITS
+   key order; deformation types and hydrogen flags are parsed as before (system order) and looked up BY
+   NAME inside the loop; a name that is missing there raises KeyError when the loop reaches it (the
+   alignments of the names before it have already run) *)
+Fixpoint run_named (comp : list (string * (nat * nat))) (pd : list (string * option (list Z)))
+  (pi : list (string * bool)) (pr : list (string * option (list (Z * Z))))
+  (result : mcall -> res unit) : list mcall * res unit :=
+  match pr with
+  | [] => ([], Ok tt)
+  | (n, rv) :: t =>
+      match lookup n pd, lookup n pi, lookup n comp with
+      | Some dv, Some iv, Some _ =>
+          let c : mcall := (n, rv, dv, iv) in
+          match result c with
+          | Ok _ => let r := run_named comp pd pi t result in (c :: fst r, snd r)
+          | Err e => ([c], Err e)
+          end
+      | _, _, _ => ([], Err EKey)
+      end
+  end.
+
+Definition manager_align_noparse (mc : list species)
+  (r : option (list (string * option (list (Z * Z))))) (d : option (list (string * dvalue)))
+  (i : option (list (string * ivalue))) (result : mcall -> res unit) : list mcall * res unit :=
+  match r with
+  | None => manager_align mc None d i result      (* `parse_restrictions or restrictions is None` *)
+  | Some pr =>
+      let comp := complete mc in
+      match parse_deformations comp d with
+      | Err e => ([], Err e)
+      | Ok pd =>
+          match parse_ignore_hydrogens comp i with
+          | Err e => ([], Err e)
+          | Ok pi => run_named comp pd pi pr result
+          end
+      end
+  end.
